@@ -6,14 +6,18 @@ Decided:
          to name n can only reach a parameter called n, for every request and every hash seed (the order in
          which sets are joined into parameter lists cannot matter);
   R02.b  declared-only: emitted names iterate the callee's own signature filtered by the in-scope set;
-         inject() filters by fb.get_arg_names() unless the callee takes **kwargs;
+         inject() filters by fb.get_arg_names() unless the callee takes **kwargs; the signature is that of the callable at hand
+         (get_fb leaves nothing on the callables it inspects and keys a memo, if any, by the callable itself); the sources in
+         scope are those of the route's own configuration (merging a route's middlewares never changes the application's list);
   R02.c  precedence of layers: a parameter's default is below every source; execute(): built-ins <
          bound resources < call-time parameters; dispatch(): serving application's resources < built-ins <
          URL parameters; bind time: application resources < route resources; each built-in name is bound
          to the object it names;
   R02.d  identity: on dispatch -> execute -> inject the values are only moved between dicts, never passed
          through a call (copy/str/...);
-  R02.e  phase isolation: endpoint-phase provides never enter the render-phase availability (R01.d).
+  R02.e  phase isolation: endpoint-phase provides never enter the render-phase availability (R01.d); the parameters of a generated
+         ``next(...)`` are the provides of its middleware in the order declared -- the positional interface through which a
+         middleware hands values on: make_chain / compile_chain pass the tuples on unsorted (order-preserving copies only).
 Declined: values third-party middlewares hand to next(); URL conversion values (C05).
 """
 from . import chain
@@ -92,6 +96,7 @@ def run(rep):
     g(chain.check_request_core, rep, 'R02.a', rule_kw='R02.a')
     g(chain.check_inject, rep, 'R02.b', 'R02.c')
     g(chain.check_accessors, rep, 'R02.b', kinds=False)
+    g(chain.check_merge_fresh, rep, 'R02.b')
     g(chain.check_request_layers, rep, 'R02.c', 'R02.d')
     g(chain.check_phase_sets, rep, 'R02.e', rule_pair='R02.e', rule_core_env='R02.e')
     g(chain.check_make_chain, rep, 'R02.e', 'R02.e')
